@@ -226,6 +226,8 @@ class C42(Prop):
         'CylcModel.C42.drop_term_counterexample',
         'CylcModel.C42.terminate_quiescent',
         'CylcModel.C42.code_as_probed',
+        'CylcModel.C42.monitor_accepts',
+        'CylcModel.C42.judge_accepts_sound',
     ]
     statement_note = (
         'partial (process timing is environment). Proved for ALL command tables, pool sizes, timeouts and operation '
@@ -239,9 +241,14 @@ class C42(Prop):
         '(Generated/SubProcFlags: dropStop / dropTerm) one_callback_partial needs: no terminate with a non-empty '
         'queue and no job-submit command queued when the pool is set stopping; drop_stop_counterexample / '
         'drop_term_counterexample refute the full statement for the unpatched flags; code_as_probed is the statement '
-        'for whichever flags translate() found. Quiescence is a hypothesis: whether children have exited when polled '
+        'for whichever flags translate() found. Refinement: monitor_accepts - the judge\'s monitor (own bookkeeping of '
+        'commands put / started / called back; rejects a second callback, an unknown command, more children alive '
+        'than the pool size, a restart, a job-submit start once stopping) never rejects the model\'s events, for '
+        'either flag setting and every history with distinct command ids; judge_accepts_sound - with no callback '
+        'dropped the whole judge (monitor + "at quiescence every command put was called back") accepts every '
+        'quiescent run. Quiescence is a hypothesis: whether children have exited when polled '
         '(in particular right after the SIGKILL of terminate()) is environment, see finding terminate-no-wait')
-    technique = 'inductive invariants (conservation law over events/queue/runnings) over op lists + correspondence on real child processes'
+    technique = 'inductive invariants (conservation law over events/queue/runnings) + refinement of the judge monitor over op lists + correspondence on real child processes'
     trusted = [
         'the harness scripts when children exit (pipes closed by the harness, waitid(WNOWAIT) before the next pool '
         'call); what proc.poll() reports during process()/terminate() is recorded through a Popen proxy and is an '
@@ -319,7 +326,7 @@ class C42(Prop):
 
     # ------------------------------------------------------------------
     def gen(self, tier, rng):
-        n = {'quick': 100, 'thorough': 1500, 'search': 400}[tier]
+        n = {'quick': 100, 'thorough': 1200, 'search': 400}[tier]
         for k in range(n):
             yield self.random_case(rng, big=(tier != 'quick' and k % 4 == 0))
 
